@@ -268,6 +268,7 @@ func Main(spec *Spec) {
 	strict := flag.Bool("strict", false, "replay: strict schedule")
 	dump := flag.Bool("dump-hashes", false, "record per-run log hashes (determinism self-test)")
 	hashOut := flag.String("hash-out", "", "file for distinct nontrivial run hashes")
+	reverse := flag.Bool("reverse", false, "with -max-runs: execute the runs in reverse order (self-test: a run must not depend on the runs before it)")
 	flag.Parse()
 
 	if p := os.Getenv("VERIF_GOMAXPROCS"); p != "" {
@@ -330,7 +331,11 @@ func Main(spec *Spec) {
 		if *maxRuns == 0 && i&15 == 0 && time.Now().After(deadline) {
 			break
 		}
-		rs := sim.Mix(*seed, spec.ID, *worker, i)
+		ri := i
+		if *reverse && *maxRuns > 0 {
+			ri = *maxRuns - 1 - i
+		}
+		rs := sim.Mix(*seed, spec.ID, *worker, ri)
 		r := sim.NewRng(rs)
 		c := spec.Gen(r, *tier)
 		c.Property = spec.ID
@@ -388,6 +393,11 @@ func Main(spec *Spec) {
 			c2.Trace = core.FormatLog(run2.Res.Log)
 			c2.History = FormatHistory(&c2, run2.Recs)
 			out.Samples = append(out.Samples, &c2)
+		}
+	}
+	if *reverse {
+		for a, b := 0, len(out.RunHashes)-1; a < b; a, b = a+1, b-1 {
+			out.RunHashes[a], out.RunHashes[b] = out.RunHashes[b], out.RunHashes[a]
 		}
 	}
 	out.Nontrivial = len(seen)
